@@ -267,9 +267,13 @@ package xlsx
 
 // ---- C17: the document-model table of a sheet: table cell (r - minRow, c - minCol) carries the value (and the merge
 // extent) of grid cell (r, c) ----
+// (C18) one page per sheet, an empty sheet included: `pages` counts the AddPage calls
 //@ func (*Reader) Document results (doc, err)
-//@   property C17
+//@   property C17, C18
 //@   flags nosafety
+//@   count pages: AddPage(p) when true
+//@   loop 1:
+//@     step every_sheet_becomes_a_page: pages == prev(pages) + 1
 //@   loop 3:
 //@     step model_cell_is_the_grid_cell: table.Rows[rowIdx - minRow][prev(colIdx) - minCol].Text == sheet.Rows[rowIdx][prev(colIdx)].Value && table.Rows[rowIdx - minRow][prev(colIdx) - minCol].RowSpan == sheet.Rows[rowIdx][prev(colIdx)].MergeRows && table.Rows[rowIdx - minRow][prev(colIdx) - minCol].ColSpan == sheet.Rows[rowIdx][prev(colIdx)].MergeCols
 //@     decreases maxCol + 1 - colIdx
